@@ -284,6 +284,15 @@ class ShardResult(object):
         self.wall = max(self.wall, other.wall)
 
 
+_KNOWN_CACHE = {}
+
+
+def _known_for(prop):
+    if prop not in _KNOWN_CACHE:
+        _KNOWN_CACHE[prop] = load_known_findings(prop)
+    return _KNOWN_CACHE[prop]
+
+
 def run_case(module, case, res, origin=None):
     """Run check(case); record outcome in ``res``.  Never raises for a
     property failure; returns the bucket (or None)."""
@@ -296,14 +305,23 @@ def run_case(module, case, res, origin=None):
     except Exception as exc:  # noqa
         bucket, detail, tags, harness = classify_exception(exc)
         res.absorb_ctx(case, ctx)
-        info = res.buckets.get(bucket)
+        # known findings are matched PER FAILURE (not per bucket), so a
+        # different failure that shares a sub-check with a known finding is
+        # still reported
+        known_id = None
+        if not harness:
+            e = match_known(_known_for(module.PROPERTY), bucket, tags)
+            if e is not None:
+                known_id = str(e.get("id") or e.get("what"))
+        slot = bucket if known_id is None else bucket + "#known:" + known_id
+        info = res.buckets.get(slot)
         if info is None:
-            res.buckets[bucket] = dict(case=case, detail=detail, tags=tags,
-                                       count=1, harness=harness,
-                                       origin=origin)
+            res.buckets[slot] = dict(case=case, detail=detail, tags=tags,
+                                     count=1, harness=harness, origin=origin,
+                                     bucket=bucket, known_id=known_id)
         else:
             info["count"] += 1
-        return bucket
+        return slot
     res.absorb_ctx(case, ctx)
     return None
 
@@ -374,8 +392,6 @@ def run_shard(task):
         b = run_case(module, case, tmp, origin)
         if b == target:
             info = tmp.buckets[b]
-            if match_known(known, b, info["tags"]) is not None:
-                return
             hits.append(info)
             raise AssertionError("target bucket hit")
     try:
@@ -500,7 +516,7 @@ def run_check(module_name, tier, seed, workers=None, only_parts=None,
         if info.get("harness"):
             harness_errors.append((bucket, info))
             continue
-        e = match_known(known, bucket, info["tags"])
+        e = match_known(known, info.get("bucket", bucket), info["tags"])
         if e is not None:
             k = e.get("id") or e.get("what")
             known_seen.setdefault(k, [e, 0])
@@ -631,7 +647,8 @@ def run_replay(module_name, path):
     if info.get("harness"):
         sys.stderr.write("HARNESS-ERROR %s\n%s\n" % (bucket, info["detail"]))
         return EXIT_HARNESS
-    e = match_known(load_known_findings(prop), bucket, info["tags"])
+    e = match_known(load_known_findings(prop), info.get("bucket", bucket),
+                    info["tags"])
     if e is not None:
         print("KNOWN-FINDING: property=%s %s" % (prop, e.get("what")))
         return EXIT_OK
